@@ -178,7 +178,7 @@ void plus_equals(vf::Ctx& c) {
 struct MState { DiagnosticStatus st = DiagnosticStatus::STALE; std::string msg, info; };
 void sequences(vf::Ctx& c, int kind, double target, double eps, int depth) {
   std::string name = "spd";
-  std::vector<double> vals = {target, target - eps - 0.5, target + eps + 0.5, target - eps, target + eps};
+  std::vector<double> vals = {target, target - eps - 0.5, target + eps + 0.5, target - eps, target + eps, 0.0, -0.0};   // +0.0 / -0.0 compare equal and print differently
   int nops = (int)vals.size() + (kind < 3 ? 1 : 0);   // reliability check-up has no timeout()
   std::set<std::string> states;
   uint64_t total = 1; for (int i = 0; i < depth; ++i) total *= nops;
@@ -226,7 +226,7 @@ const std::vector<Case>& cases(bool th) {
   if (!v.empty()) return v;
   for (int k = 0; k < 3; ++k) for (int t = 0; t < 7; ++t) for (int e = 0; e < 4; ++e) v.push_back({0, k, t, e});
   for (int k = 0; k < 3; ++k) for (int t = 0; t < 3; ++t) for (int e = 0; e < 3; ++e) v.push_back({1, k, t, e});
-  for (int l = 0; l < 4; ++l) for (int h = l; h < 4; ++h) v.push_back({2, l, h, 0});
+  for (int l = 0; l < 4; ++l) for (int h = 0; h < 4; ++h) v.push_back({2, l, h, 0});   // incl. low > high (swapped configuration): ERROR below low comes first
   v.push_back({3, 0, 0, 0});
   for (int len = 1; len <= (th ? 10 : 8); ++len) v.push_back({4, len, 0, 0});
   for (int b = 0; b < 4; ++b) v.push_back({5, b, 0, 0});
@@ -262,7 +262,7 @@ std::string vf_describe(const std::string& tier) {
   o.str("status_algebra", "all 64 triples");
   o.str("lists", th ? "all lists of length 1..10; length-20 lists with <=2 deviations from each constant list" : "all lists of length 1..8 (87380); length-20 lists with <=2 deviations from each constant list");
   o.str("reports", "all pairs and triples from a catalogue of 6 reports (disjoint and colliding info keys, empty lists)");
-  o.i("sequence_depth", th ? 7 : 5).str("sequence_ops", "evaluate(5 values on/around the thresholds), timeout(); 4 check-up kinds x 6 configurations; every sequence replayed on a fresh object");
+  o.i("sequence_depth", th ? 7 : 5).str("sequence_ops", "evaluate(5 values on/around the thresholds, +0.0, -0.0), timeout(); 4 check-up kinds x 6 configurations; every sequence replayed on a fresh object");
   return o.done();
 }
 
